@@ -5,6 +5,9 @@ import (
 	"unsafe"
 )
 
+// (Bytes are overwritten with a fixed pattern, not XOR-ed: two results that alias the same memory are visited
+// twice, and a second XOR would restore them.)
+//
 // Scribble overwrites everything a *caller* can legitimately write through a value it was handed:
 // the elements of byte slices and byte arrays, map entries, and whatever is reachable from there
 // through pointers, interfaces, slices, maps and EXPORTED struct fields (unexported fields are
@@ -53,7 +56,7 @@ func (s *scribbler) walk(v reflect.Value, depth int) {
 		if v.Type().Elem().Kind() == reflect.Uint8 {
 			b := unsafe.Slice((*byte)(unsafe.Pointer(v.Pointer())), v.Len())
 			for i := range b {
-				b[i] ^= 0xA5
+				b[i] = 0xA5
 			}
 			s.n += len(b)
 			return
@@ -65,7 +68,7 @@ func (s *scribbler) walk(v reflect.Value, depth int) {
 		if v.Type().Elem().Kind() == reflect.Uint8 && v.CanAddr() {
 			b := unsafe.Slice((*byte)(unsafe.Pointer(v.UnsafeAddr())), v.Len())
 			for i := range b {
-				b[i] ^= 0xA5
+				b[i] = 0xA5
 			}
 			s.n += len(b)
 			return
